@@ -22,7 +22,8 @@ func (b *builder) hostileBytes(maxn int) []byte {
 	case 4:
 		// long runs of one delimiter class
 		x := make([]byte, n)
-		c := []byte(" \t\r\n;,=<>\":\\0")[b.r.Intn(14)]
+		cs := []byte(" \t\r\n;,=<>\":\\0")
+		c := cs[b.r.Intn(len(cs))]
 		for i := range x {
 			x[i] = c
 			if b.r.Chance(1, 16) {
